@@ -65,6 +65,24 @@ def gen_cases(ctx):
         yield {"kind": "history", "instance": gen.long_instance(rng), "filter": gen.gen_filter_spec(rng),
                "policy": "random_ready", "seed": rng.randrange(2**31), "episodes": 1, "observers": False,
                "sibling": False, "fork": None}
+    from . import _env_workload as E
+    for i in range(ctx.scale(80, 12000)):
+        # the clock as met inside the multi-instance environment (filter from the constructor,
+        # default, None, or changed through the env's setter; zero durations only without filter)
+        c = E.gen_multi_case(rng)
+        if c["generator"]["duration_range"][0] == 0:
+            c["constructor_filter"] = "none"
+            c["setter"] = None
+        yield c
+    for i in range(ctx.scale(600, 60000)):
+        # some steps of the history are performed by a rule solver (solver.step) on the caller's
+        # dispatcher, which has no filter: zero durations allowed
+        c = gen_history_case(rng, classes=["zero", "zero", "zero"] + gen.INSTANCE_CLASSES,
+                             max_jobs=rng.choice([2, 3, 4]),
+                             max_machines=rng.choice([2, 3, 4]), filters=False)
+        c.update(kind="history", episodes=1, observers=False, sibling=False, fork=None,
+                 solver_steps=rng.randint(1, 4))
+        yield c
     for i, name in enumerate(["ft06", "la01"] if ctx.tier == "quick" else ["ft06", "la01", "la02", "orb01", "abz5"]):
         if i % ctx.nshards == ctx.shard:
             yield {"kind": "benchmark_reload", "name": name, "seed": rng.randrange(2**31),
@@ -142,6 +160,24 @@ def one_history(ctx, case, explicit=None, instance=None):
         k += 1
         # warm the caches that hold pre-state answers
         d.current_time(); d.completed_operations()
+        if case.get("solver_steps") and k % 2 == 0 and explicit is None:
+            from . import _env_workload as E
+            if case["seed"] % 2 and len(r.history) >= 1:
+                clocks = E.solver_finish(ctx, run, rng, "c06")
+                seq = [last] + clocks
+                if any(a > b for a, b in zip(seq, seq[1:])):
+                    ctx.violation("c06_clock_went_backwards",
+                                  {"clocks_seen_by_an_observer": seq, "history": list(r.history),
+                                   "driver": "solver.solve(instance, dispatcher)"})
+                last = d.current_time()
+                completed = set(x.operation_id for x in d.completed_operations())
+                continue
+            E.solver_steps(ctx, run, rng, case["solver_steps"], "c06")
+            if run.done():
+                last = d.current_time()
+                completed = set(x.operation_id for x in d.completed_operations())
+                continue
+            o, m = run.choose(rng, "random_ready")
         run.dispatch(o, m)
         if not fractional and not run.done() and rng.random() < 0.25:
             # built-in rules and scoring functions are clients of the cached lists as well:
@@ -290,7 +326,39 @@ def _fork_and_judge(ctx, case, run, rng, kind, completed_before):
     # checks right after this returns)
 
 
+def run_multi_env(ctx, case):
+    from . import _env_workload as E
+    last = None
+    completed = set()
+    for event, run, info in E.multi_env_episodes(ctx, case):
+        d, r = run.d, run.r
+        now = d.current_time()
+        comp = set(x.operation_id for x in d.completed_operations())
+        ctx.count("clock_steps_checked")
+        w = {"env": "multi", "event": event, "history": list(r.history), "filter": run.filter_names,
+             "constructor_filter": case["constructor_filter"], "setter": case.get("setter")}
+        if event == "reset":
+            if now != 0 or comp:
+                ctx.violation("c06_clock_or_completed_set_not_reset", dict(w, clock=now))
+        else:
+            if now < last:
+                ctx.violation("c06_clock_went_backwards", dict(w, before=last, after=now))
+            if not completed <= comp:
+                ctx.violation("c06_completed_set_shrank", dict(w, lost=sorted(completed - comp)))
+            if run.clock_exact and now != r.current_time(None):
+                ctx.violation("c06_clock_differs_from_reference", dict(w, got=now, want=r.current_time(None)))
+            if run.done():
+                ctx.count("completion_checks")
+                if now != r.makespan():
+                    ctx.violation("c06_clock_not_makespan_at_completion", dict(w, clock=now, makespan=r.makespan()))
+        last, completed = now, comp
+    ctx.note_case(case, True, fingerprint="multi:%s:%s:%s" % (case["seed"], case["constructor_filter"],
+                                                              case.get("setter")))
+
+
 def run_case(ctx, case):
+    if case["kind"] == "multi_env_filter":
+        return run_multi_env(ctx, case)
     if case["kind"] == "benchmark_reload":
         # a recorded benchmark instance is loaded, a variant is made of that copy by editing it in
         # place (zero durations) and used; a later load must again be the recorded instance
